@@ -412,8 +412,11 @@ def main(argv):
         ev["level"] = "other"
         ev["coverage"]["explanation"] = ("no obligation was discharged in this run, so nothing is claimed at proof level: "
                                          + ("; ".join(undecided) if undecided else "no unit produced a verification query"))
-    os.makedirs(os.path.join(VERIF, "evidence"), exist_ok=True)
-    json.dump(ev, open(os.path.join(VERIF, "evidence", pid + ".json"), "w"), indent=1)
+    # the registered evidence file describes /repo itself: a self-test run against a scratch copy (VERIF_REPO) or with a private
+    # build directory (VERIF_BUILD) writes its record next to its build output instead
+    ev_dir = os.path.join(VERIF, "evidence") if (REPO == "/repo" and not os.environ.get("VERIF_BUILD")) else os.path.join(BUILD, "evidence")
+    os.makedirs(ev_dir, exist_ok=True)
+    json.dump(ev, open(os.path.join(ev_dir, pid + ".json"), "w"), indent=1)
 
     print("%s %s tier=%s: %d/%d obligations discharged%s (verus units: %s; kani harnesses: %d), %.1fs" % (
         pid, verdict, tier, discharged, obligations,
